@@ -80,6 +80,7 @@ class SchedIO(Py7zIO):
         self.key, self.sched, self.fail, self.delay = key, sched, fail, delay
         self.buf = bytearray()
         self.writes = 0
+        self.sizes = []
 
     def write(self, s):
         if self.sched is not None:
@@ -91,6 +92,7 @@ class SchedIO(Py7zIO):
                 raise self.fail
             self.buf += s
             self.writes += 1
+            self.sizes.append(len(s))
             return len(s)
         finally:
             if self.sched is not None:
